@@ -62,6 +62,11 @@ def f1(spec, x):
         return tuple((j, x) for j in range(spec[1]))
     if op == 'grow':        # feedback template: expands small ints, stops at K
         return (x + 1, x + 2) if x < spec[1] else ()
+    if op == 'growback':    # feedback template with links back to ancestors (a crawler meeting a -> b -> a)
+        K, base = spec[1], spec[2]
+        if x >= K:
+            return (x - 1,) if x > base else ()
+        return (x + 1, x - 1, x) if x > base else (x + 1, x)
     raise ValueError(spec)
 
 
